@@ -907,6 +907,19 @@ var c04AggCols = []c04AggCol{
 	{"COUNT(DISTINCT)", "COUNT(DISTINCT w)", func(vs, ws []rv.V, s bool) (bucket.Agg, bool) {
 		return c04Always(bucket.Count(bucket.Distinct(c04NN(ws), s)))
 	}, ""},
+	// a constant argument: one distinct value however many rows the bucket has; none for NULL
+	{"COUNT(DISTINCT)", "COUNT(DISTINCT 1)", func(vs, ws []rv.V, _ bool) (bucket.Agg, bool) {
+		return bucket.Agg{Kind: "exact", V: rv.I(1)}, true
+	}, ""},
+	{"COUNT(DISTINCT)", "COUNT(DISTINCT 'x')", func(vs, ws []rv.V, _ bool) (bucket.Agg, bool) {
+		return bucket.Agg{Kind: "exact", V: rv.I(1)}, true
+	}, ""},
+	{"COUNT", "COUNT(NULL)", func(vs, ws []rv.V, _ bool) (bucket.Agg, bool) {
+		return bucket.Agg{Kind: "exact", V: rv.I(0)}, true
+	}, ""},
+	{"COUNT", "COUNT(7)", func(vs, ws []rv.V, _ bool) (bucket.Agg, bool) {
+		return bucket.Agg{Kind: "exact", V: rv.I(int64(len(vs)))}, true
+	}, ""},
 	{"SUM", "SUM(v)", func(vs, ws []rv.V, _ bool) (bucket.Agg, bool) { return c04Always(bucket.Sum(vs)) }, ""},
 	{"SUM(DISTINCT)", "SUM(DISTINCT v)", func(vs, ws []rv.V, s bool) (bucket.Agg, bool) { return c04Always(bucket.Sum(bucket.Distinct(vs, s))) }, ""},
 	{"SUM", "SUM(w)", func(vs, ws []rv.V, _ bool) (bucket.Agg, bool) { return c04Always(bucket.Sum(ws)) }, ""},
